@@ -16,15 +16,16 @@ package bindrequest_info
 //@   ensures result == brFailed(bri.BindRequest)
 //@ end
 
-// Map key of a pod / request: an injective-or-not, but DETERMINISTIC, function of (namespace, name).
-// common_info.NewObjectKey builds it with fmt.Sprintf, which the engine models as a fresh string per
-// call; the only fact needed here is that equal arguments give equal keys.
+// Map key of a pod / request: a DETERMINISTIC function of (namespace, name). common_info.NewObjectKey
+// builds it with fmt.Sprintf; the engine does not identify the results of two Sprintf calls with equal
+// string arguments (the arguments are boxed into fresh interface values), and the only fact needed here
+// is that equal arguments give equal keys.
 //@ declare objKey(ns string, name string) string
 
 //@ func NewKey
 //@   props C12
 //@   trusted
-//@   note fmt.Sprintf (inside common_info.NewObjectKey) is outside the subset: modelled as a fresh string per call; assumed to be a deterministic function of its arguments
+//@   note fmt.Sprintf (inside common_info.NewObjectKey): assumed to be a deterministic function of its two string arguments
 //@   pure
 //@   ensures result == objKey(namespace, name)
 //@ end
